@@ -10,6 +10,7 @@ import Pdpy11.Driver.Listing
 import Pdpy11.Driver.Parse
 import Pdpy11.Driver.Expr
 import Pdpy11.Driver.LineCol
+import Pdpy11.Driver.State
 namespace Pdpy11.Driver
 
 def handle (line : String) : String :=
@@ -38,6 +39,7 @@ def handle (line : String) : String :=
     | "expr" => handleExpr args
     | "tree" => handleTree args
     | "linecol" => handleLineCol args
+    | "state" => handleState args
     | "ping" => "pong"
     | _ => "bad-op"
 
